@@ -35,6 +35,8 @@ type respCase struct {
 	// Defaults: NewTemplate(nil) over templates/*.tw.html, the documented defaults (no custom page, debug off)
 	Defaults bool   `json:"defaults,omitempty"`
 	Note     string `json:"note,omitempty"`
+	// FaultText: the failing expression as written (once) in the page's own file; "" when the failure has no place in it
+	FaultText string `json:"fault_text,omitempty"`
 	// Linked: names whose file in the template directory is a symbolic link to a regular file kept elsewhere
 	Linked []string `json:"linked,omitempty"`
 }
@@ -255,6 +257,10 @@ func c17Run(c *harness.Check, cs respCase) string {
 			if _, exists := cs.Files[cs.Page]; exists && ferr.Filepath() != "" {
 				// every generated fault is written in the page's own file
 				needs = append(needs, pageAbs)
+				if i := strings.Index(cs.Files[cs.Page], cs.FaultText); cs.FaultText != "" && i >= 0 && ferr.Filepath() == pageAbs {
+					// the line is the one the failing expression is written on (not the one the error object says)
+					needs = append(needs, fmt.Sprintf("%s:%d", pageAbs, 1+strings.Count(cs.Files[cs.Page][:i], "\n")))
+				}
 			}
 			for _, need := range needs {
 				if !strings.Contains(body, need) {
@@ -271,7 +277,13 @@ func c17Run(c *harness.Check, cs respCase) string {
 }
 
 // c17Page builds a page that emits k marked chunks and then (maybe) fails.
-func c17Page(rt *rapid.T) (files map[string]string, page string, markers []string, fails bool, note string) {
+func c17Page(rt *rapid.T) (files map[string]string, page string, markers []string, fails bool, note string, faultText string) {
+	defer func() {
+		if fails && page == "page" && strings.Count(files["page"], faultText) == 1 {
+			return
+		}
+		faultText = ""
+	}()
 	files = map[string]string{
 		"layouts/l": "<LAYOUT-MARK>@reserve(\"body\")</LAYOUT-MARK>",
 		"comp":      "<COMP-MARK>{{ v }}@slot</COMP-MARK>",
@@ -283,6 +295,8 @@ func c17Page(rt *rapid.T) (files map[string]string, page string, markers []strin
 		markers = append(markers, m)
 		// (percent signs: what is written to the response is data, never a format)
 		b.WriteString("<p style=\"width: 100%;\">" + m + " 50% off %d %s %% – Zoë’s café</p>\n")
+		// constructs that span lines: the line of a later fault counts the line ends inside them
+		b.WriteString(rapid.SampledFrom([]string{"", "", "{{-- c\nc\n\nc --}}\n", "{{ \"s\nt\".len() }}\n", "{{\n1\n}}\n", "\r\n", "{{-- one --}}{{-- two\n --}}", "@if(\ntrue\n)\ny\n@end\n"}).Draw(rt, "spanning"))
 	}
 	long := "zz" + strings.Repeat("VeryLongIdentifier_", 16) // messages that embed a name can be long: shown whole or not at all
 	fault := rapid.SampledFrom([]string{"{{ zzMissing }}", "{{ 1 / 0 }}", "{{ name + 1 }}", "{{ name.nosuchfn() }}", "{{ {a: 1}.zz }}",
@@ -290,6 +304,7 @@ func c17Page(rt *rapid.T) (files map[string]string, page string, markers []strin
 	shape := rapid.SampledFrom([]string{"ok", "ok-layout", "top", "in-loop", "in-layout", "in-component", "in-slot", "missing", "after-nested-render", "ok-nested-render",
 		"in-each-else", "in-for-else", "in-nested-else", "in-elseif", "in-header", "in-control", "in-insert-expression"}).Draw(rt, "shape")
 	faultExpr := strings.TrimSuffix(strings.TrimPrefix(fault, "{{ "), " }}")
+	faultText = faultExpr
 	files["other"] = "<OTHER-MARK>{{ 1 + 1 }}</OTHER-MARK>"
 	note = shape
 	page = "page"
@@ -356,8 +371,8 @@ func TestC17_Configurations(t *testing.T) {
 		"all combinations of {debug on, off} x {no custom error page, a working one, one that does not exist, one that fails at run time} x generated pages {succeeding (plain, with layout and component); failing at run time after 1..4 uniquely marked chunks at top level, inside a loop pass, inside a layout's insert, inside a component argument, inside a slot body, inside the @else of an empty @each / @for (also nested in a loop pass), in an @elseif condition / @elseif body / @else body / ternary branch / array element / assignment / second statement of a print, in the header of @if / @each / @for (each clause), in @breakIf / @continueIf, in the expression form of an insert, because of the data (a value of an unsupported kind or the reserved key loop: failures without a file path), after a registered function has rendered another template of the directory (working, failing, missing) through Response; not existing} x data: success -> nil and body == String(); failure -> non-nil error, no marker of the failed page in the body, body == custom page (working one, debug off) / empty (custom page itself fails, debug off) / built-in page (rendered differentially from default-error-page.tw with the failure's fields); debug off -> neither message nor any path in the body; debug on -> message, path and line in it (the path being that of the page's own file, where every generated fault is written). In one case in six some of the files (the page, the custom error page, the component, the layout) are symbolic links to regular files kept outside the directory. One case in eight uses no configuration at all (NewTemplate(nil) over templates/*.tw.html): the documented defaults, debug off and no custom page, apply. Non-trivial: failing page and a non-default configuration, or the defaults. Distinct by hash.")
 	defer c.Finish()
 	runRapid(t, c, 3000, 30000, func(rt *rapid.T) {
-		files, page, markers, fails, note := c17Page(rt)
-		cs := respCase{Files: files, Page: page, Markers: markers, Fails: fails, Note: note, Debug: rapid.Bool().Draw(rt, "debug"),
+		files, page, markers, fails, note, faultText := c17Page(rt)
+		cs := respCase{Files: files, Page: page, Markers: markers, Fails: fails, Note: note, FaultText: faultText, Debug: rapid.Bool().Draw(rt, "debug"),
 			Custom: rapid.SampledFrom([]string{"none", "valid", "missing", "failing"}).Draw(rt, "custom"),
 			Data:   specData(map[string]any{"name": rapid.SampledFrom([]string{"Ann", "<b>x</b>", ""}).Draw(rt, "name")})}
 		switch cs.Custom {
